@@ -3,6 +3,5 @@ NEXT Next
 CONSTANTS
   AB <- ABThorough
   MaxPay <- MaxPayThorough
-  IdTriples <- IdTriplesThorough
 INVARIANTS RoundTrip ChecksumZero CorruptRejected OnlyBuilt Disjoint
 CHECK_DEADLOCK FALSE
